@@ -75,7 +75,11 @@ Proof.
       match goal with |- match (match ?x with _ => _ end) with _ => _ end -> _ => destruct x as [es'|] eqn:Ees end; [|trivial].
       intros (_ & Dp). repeat split; try assumption; try apply F'.
       * simpl. revert Ees. repeat case_if; intros Ees; inv Ees; try assumption. apply Forall_app; split; assumption.
-      * repeat apply clear_slot_ok. assumption.
+      * case_if.
+        -- match goal with |- heap_ok (s_heap ?st) => change (s_heap st) with (fst (clear_slot (Some (sc_es (s_sc s)))
+             (clear_slot (sc_static (s_sc s)) (clear_slot (f_args (s_fr s)) (clear_slot (f_local (s_fr s)) (s_heap s, s_refs s)))))) end.
+           repeat apply clear_slot_ok. assumption.
+        -- repeat apply clear_slot_ok. assumption.
       * lia.
   - inv Fs. intros (_ & Dp). repeat split; try assumption; try apply H2.
     + repeat apply clear_slot_ok. assumption.
